@@ -127,6 +127,18 @@ theorem lime_mask_broadcast (sample coef : List Rat) (mapping : List Nat) (p : N
   unfold limeMask limeBroadcast
   simp [List.getD_eq_getElem?_getD, hp]
 
+/-- **The numbering of the segments is immaterial** — renumber the segments by any map `π` (column-major, reversed, shuffled
+    ids ...) and permute the interpretable sample / the coefficient vector accordingly: every pixel is perturbed and reported
+    exactly as before.  In particular the ids need not follow the raster scan. -/
+theorem lime_renumbering (π : Nat → Nat) (sample sample' coef coef' : List Rat) (mapping : List Nat)
+    (hs : ∀ f ∈ mapping, sample'.getD (π f) 0 = sample.getD f 0)
+    (hc : ∀ f ∈ mapping, coef'.getD (π f) 0 = coef.getD f 0) :
+    limeMask sample' (mapping.map π) = limeMask sample mapping ∧
+    limeBroadcast coef' (mapping.map π) = limeBroadcast coef mapping := by
+  unfold limeMask limeBroadcast
+  rw [List.map_map, List.map_map]
+  exact ⟨List.map_congr_left fun f hf => by simpa using hs f hf, List.map_congr_left fun f hf => by simpa using hc f hf⟩
+
 /-- a pixel whose segment is kept (`sample = 1`) is untouched, one whose segment is dropped gets `ref` -/
 theorem lime_apply_cell (chan : Nat) (x ref sample : List Rat) (mapping : List Nat) (k : Nat)
     (hk : k < x.length) (hp : k / chan < mapping.length) :
